@@ -244,7 +244,7 @@ func checkC13(c *km.Ctx) {
 			r.Add("R-C13-3", km.FuncName(hp), "return true", posOf(c, rc.Ret), "host == domain, or a suffix match that starts at a dot", clipS(rc.State.String(), 240), ok)
 		default:
 			nTrue++
-			ok := rc.State.All(func(k km.Conj) bool { return isDotSuffixCall(v, host, dom, k) })
+			ok := rc.State.All(func(k km.Conj) bool { return isDotSuffixCall(v, host, dom, k) || isDotBeforeSuffix(v, host, dom, k) })
 			r.Add("R-C13-3", km.FuncName(hp), "return of a suffix test", posOf(c, rc.Ret), "HasSuffix(host, \".\"+domain), or HasSuffix(host, domain) under HasPrefix(domain, \".\")", clipS(km.ValStr(v), 160), ok)
 		}
 	}
@@ -463,6 +463,16 @@ func startsAtDot(suf ssa.Value, dom ssa.Value, k km.Conj, depth int) bool {
 	}
 	if suf == dom {
 		for _, f := range k.List() {
+			// domain[0] == '.'
+			if f.Op == token.EQL {
+				if ix, isIx := f.X.(*ssa.Index); isIx && km.Unwrap(ix.X) == dom {
+					i0, isI := km.ConstInt(ix.Index)
+					ch, isC := km.ConstInt(f.Y)
+					if isI && i0 == 0 && isC && ch == '.' {
+						return true
+					}
+				}
+			}
 			if f.Op == token.ILLEGAL && f.Pol {
 				if pc, ok := f.X.(*ssa.Call); ok && km.CalleeFull(pc.Common()) == "strings.HasPrefix" {
 					arg := km.Unwrap(pc.Common().Args[0])
@@ -886,4 +896,45 @@ func hpCall(s *km.Sem, hp *ssa.Function, cc *ssa.CallCommon) (ssa.Value, ssa.Val
 		}
 	}
 	return nil, nil, false
+}
+
+// isDotBeforeSuffix: v is host[len(host)-len(domain)-1] == '.', on a path that knows HasSuffix(host, domain) and
+// host != domain: the byte in front of the matched suffix is a dot, which is HasSuffix(host, "."+domain) without
+// the concatenation.
+func isDotBeforeSuffix(v ssa.Value, host, dom ssa.Value, k km.Conj) bool {
+	b, ok := km.Unwrap(v).(*ssa.BinOp)
+	if !ok || b.Op != token.EQL {
+		return false
+	}
+	ch, isC := km.ConstInt(b.Y)
+	ix, isIx := b.X.(*ssa.Index)
+	if !isC || ch != '.' || !isIx || km.Unwrap(ix.X) != host {
+		return false
+	}
+	isLen := func(x ssa.Value, of ssa.Value) bool {
+		cl, ok := km.Unwrap(x).(*ssa.Call)
+		return ok && km.CalleeFull(cl.Common()) == "builtin:len" && km.Unwrap(cl.Common().Args[0]) == of
+	}
+	// (len(host) - len(domain)) - 1
+	outer, ok := km.Unwrap(ix.Index).(*ssa.BinOp)
+	if !ok || outer.Op != token.SUB {
+		return false
+	}
+	one, isOne := km.ConstInt(outer.Y)
+	inner, isIn := km.Unwrap(outer.X).(*ssa.BinOp)
+	if !isOne || one != 1 || !isIn || inner.Op != token.SUB || !isLen(inner.X, host) || !isLen(inner.Y, dom) {
+		return false
+	}
+	suffix, differ := false, false
+	for _, f := range k.List() {
+		if f.Op == token.ILLEGAL && f.Pol {
+			if cl, ok := f.X.(*ssa.Call); ok && km.CalleeFull(cl.Common()) == "strings.HasSuffix" && km.Unwrap(cl.Common().Args[0]) == host && km.Unwrap(cl.Common().Args[1]) == dom {
+				suffix = true
+			}
+		}
+		if f.Op == token.NEQ && ((km.Unwrap(f.X) == host && km.Unwrap(f.Y) == dom) || (km.Unwrap(f.X) == dom && km.Unwrap(f.Y) == host)) {
+			differ = true
+		}
+	}
+	return suffix && differ
 }
